@@ -61,6 +61,10 @@ def gen_case(rng, methods=METHODS, max_lang=5, max_conc=5):
         for l in langs:
             k = rng.choice([0, 1, 1, 1, 1, 2, 2, 3] if nl < 10 else [0, 1, 1, 1, 1, 1, 1, 2])   # missing cells, synonyms
             cells += [(l, c)] * k
+    if nc >= 2 and rng.random() < 0.3:
+        # concepts attested by a single word (size boundary: 1 x 1 matrix), next to concepts with several words
+        for c in rng.sample(concs, rng.choice([1, 1, 2]) if nc > 2 else 1):
+            cells = [x for x in cells if x[1] != c] + [(rng.choice(langs), c)]
     if not cells:
         cells = [(langs[0], concs[0])]
     if len(cells) > 22:
@@ -84,6 +88,14 @@ def gen_case(rng, methods=METHODS, max_lang=5, max_conc=5):
             if swaps:                                           # distance 0 or tiny for sca / lexstat
                 k, y = rng.choice(swaps)
                 w[k] = y
+        elif r < 0.8:
+            # reduplication-like relatives of a pool word (mama / ma, aba / a, anna / ana): the shorter word is both
+            # a prefix and a suffix of the longer one, or the words differ by one copy of a doubled segment
+            p = list(rng.choice(pool))
+            k = rng.randrange(len(p))
+            w = rng.choice([p + p, p + p[:1], p[-1:] + p, p + [rng.choice(CONS + VOWS)] + p, p[:k] + [p[k]] + p[k:],
+                            p[:1], p[-1:], p[:k + 1] + p[k:], p + p[::-1][1:]])
+            w = w[:6]
         else:
             w = gen_word(rng)
         rows.append([i, l, c, w])
@@ -258,7 +270,7 @@ def run_impl(case):
         # LexStat rejects wordlists with too many unrecognised characters: an excluded input, but only
         # for the cases into which the generator put a bare combining mark
         if any(tok in MARKS for _, _, _, w in case["rows"] for tok in w):
-            return {"rejected": True, "exact": True, "oracle_ok": True, "nconcepts": 0, "sizes": [],
+            return {"rejected": True, "exact": True, "oracle_ok": True, "dist_stable": True, "nconcepts": 0, "sizes": [],
                     "t": ["0", "0"], "out": [], "out2": [], "calls": [], "dist": [], "classes": {}, "vowels": []}
         raise
     scorer_failed = False
@@ -314,20 +326,21 @@ def run_impl(case):
             ts.append(t)
         ts.sort()
         outs = []
+        unstable = []
         for n, t in enumerate(ts):
             del mats[:]
             # a threshold of 0 is passed as the int 0 or the float 0.0 (both are legitimate and falsy)
             tv = 0 if (t == 0 and case.get("int_zero")) else float(t)
             lex.cluster(method=real, cluster_method=case["linkage"], threshold=tv, ref="cog%d" % n)
             d2 = rec.pop("cur", {})
-            if d2 != dist:
-                raise AssertionError("the word-distance function is not a function of the pair: %r vs %r" % (d2, dist))
+            if d2 != dist:              # the distance of a pair depends on the call (e.g. on the threshold)
+                unstable.append([n, [[a, b, d2.get((a, b)), d] for (a, b), d in sorted(dist.items()) if d2.get((a, b)) != d][:5]])
             outs.append([(int(i), int(lex[i, "cog%d" % n])) for i, _, _, _ in case["rows"]])
     finally:
         LexStat._distance_method = orig_dm
         LexStat._get_matrices = orig_gm
     mt = _model_thresholds(method, ts)
-    res = {"t": [str(t) for t in mt], "out": outs[0], "out2": outs[1]}
+    res = {"t": [str(t) for t in mt], "out": outs[0], "out2": outs[1], "dist_stable": not unstable, "unstable": unstable}
     res.update(_common_result(case, lex, method, scorer_failed, dist, mats0, ts, mt))
     return res
 
@@ -376,7 +389,7 @@ def _common_result(case, lex, method, scorer_failed, dist, mats0, ts, mt):
 
 def _run_history(case, lex, real, rec, mats, LexStat, orig_dm, orig_gm):
     method = case["method"]
-    dist, mats0, snaps = None, None, []
+    dist, mats0, snaps, unstable = None, None, [], []
     try:
         for t, ref, override in case["calls"]:
             del mats[:]
@@ -388,14 +401,14 @@ def _run_history(case, lex, real, rec, mats, LexStat, orig_dm, orig_gm):
                 if dist is None:
                     dist, mats0 = d2, list(mats)
                 elif d2 != dist:
-                    raise AssertionError("the word-distance function is not a function of the pair")
+                    unstable.append(len(snaps))
             snaps.append([(int(i), int(lex[i, ref])) for i, _, _, _ in case["rows"]])
     finally:
         LexStat._distance_method = orig_dm
         LexStat._get_matrices = orig_gm
     ts = [t for t, _, _ in case["calls"]]
     mt = _model_thresholds(method, ts)
-    res = {"calls": [[str(m), o] for m, o in zip(mt, snaps)]}
+    res = {"calls": [[str(m), o] for m, o in zip(mt, snaps)], "dist_stable": not unstable, "unstable": unstable}
     res.update(_common_result(case, lex, method, False, dist or {}, mats0 or [], ts, mt))
     return res
 
@@ -432,11 +445,11 @@ def render(case, res):
         return L.lst([L.pair(L.nat(i), L.nat(k)) for i, k in o])
     if "calls" in case:
         return L.record("lex_hist_case", [
-            COQ_METH[case["linkage"]], L.b(res["exact"]), L.b(res["oracle_ok"]), wl, dist,
+            COQ_METH[case["linkage"]], L.b(res["exact"]), L.b(res["oracle_ok"] and res["dist_stable"]), wl, dist,
             L.lst([L.pair(L.q(F(t)), col(o)) for t, o in res["calls"]])])
     return L.record("lex_case", [
-        COQ_METH[case["linkage"]], L.q(F(res["t"][0])), L.q(F(res["t"][1])), L.b(res["exact"]), L.b(res["oracle_ok"]),
-        wl, dist, col(res["out"]), col(res["out2"])])
+        COQ_METH[case["linkage"]], L.q(F(res["t"][0])), L.q(F(res["t"][1])), L.b(res["exact"]),
+        L.b(res["oracle_ok"] and res["dist_stable"]), wl, dist, col(res["out"]), col(res["out2"])])
 
 
 def case_type(case):
@@ -451,7 +464,8 @@ BITS = {0: "correspondence: the model's id column differs from the implementatio
         4: "turchin consequence: sets differ from the classes of equal first-two-consonant-class keys",
         5: "refinement (C10): two words share a cognate id at t1 but not at t2 >= t1",
         6: "distance oracle: the distance cluster(method='sca') used for a word pair is not the SCA distance "
-           "align_pairs(method='sca') reports for that pair"}
+           "align_pairs(method='sca') reports for that pair, or the distance the method computes for a pair of "
+           "words differs between two calls (it depends on the threshold / the call history)"}
 
 
 def nontrivial(case, res):
@@ -563,6 +577,8 @@ def classify(case, res):
         out.append("oracle-contract-violated")
     if any(s >= 2 for s in res["sizes"]):
         out.append("has-multiword-concept")
+    if any(s == 1 for s in res["sizes"]) and any(s >= 3 for s in res["sizes"]):
+        out.append("has-one-word-concept-beside-large-concept")
     cells = {}
     for i, l, c, w in case["rows"]:
         cells.setdefault((l, c), []).append(tuple(w))
